@@ -583,6 +583,33 @@ def _execute(trace, probes, scratch):
     probes['intact_records'] += len(intact)
     probes['lost_or_damaged_records'] += img.n - len(intact)
 
+    # ---- the string entry points mdl_mol(text) / mdl_rxn(text) on the blocks of a clean file
+    if not faulty and not trace.get('append') and fmt != 'mrv':
+        from chython import mdl_mol, mdl_rxn
+        for i, (a, b) in enumerate(extents):
+            block = text[a:b]
+            want = dict(expected[i])
+            want['meta'] = {}
+            want['unparsed'] = False
+            try:
+                if want['kind'] == 'mol':
+                    if fmt in ('rdf', 'erdf'):
+                        block = block[block.index('$MFMT\n') + 6:]
+                    end = block.find('\nM  END\n') + 1    # a line that *starts* with M  END (titles may contain it)
+                    got = record_view(mdl_mol(block[:end + 7], calc_cis_trans=bool(trace.get('calc_ct'))), fmt)
+                else:
+                    block = block[block.index('$RXN'):]
+                    end = block.find('\n$DTYPE') + 1 if '\n$DTYPE' in block else -1
+                    got = record_view(mdl_rxn(block if end < 0 else block[:end], calc_cis_trans=bool(trace.get('calc_ct'))), fmt)
+            except Exception as e:
+                raise Violation(f'exception-escaped:{type(e).__name__}', f'{fmt} record {i} through mdl_mol/mdl_rxn: {e!r}')
+            got['meta'] = {}
+            got['unparsed'] = False
+            d = compare_views(want, got)
+            if d:
+                raise Violation(f'roundtrip-mismatch:{diff_field(d)}', f'{fmt} record {i} through mdl_mol/mdl_rxn: {d}')
+            probes['text_entry_points_equal'] += 1
+
     # ---- read phase(s)
     for rp in trace.get('reads') or [{}]:
         rp = dict(rp)
@@ -930,6 +957,10 @@ def tear_sweep(trace, probes, stride):
     n = len(text.encode())
     if n > 12000:
         return None, 0
+    if stride == 1 and n > 4000:
+        stride = 7           # every byte only for files up to 4 kB
+    if stride > 1 and n > 6000:
+        stride = 23
     cuts = set(range(0, n, stride))
     cuts |= {i + 1 for i, c in enumerate(text) if c == '\n'}
     cuts |= set(range(0, n, 512))
